@@ -175,6 +175,8 @@ class C20(Prop):
         "otherwise-valid data; the outcome class (result / ValueError / NotImplementedError / other exception) is compared "
         "with the decision model. Oracle: a call that violates a used constraint must raise (ValueError, except the two "
         "documented exceptions) and return nothing. Non-trivial = a descriptor violating at least one used constraint."
+        "Later additions: every kind of wrong length (one short, one long, a single element numpy would broadcast, twice as many) for every score class, "
+        "one or two observations, NaN as an invalid level and as a non-positive weight, all-negative weights, a NaN in half of the features. "
     )
     assumptions = ["numpy / scikit-learn / polars raise for inputs they cannot handle (np.average with mis-shaped weights)"]
 
